@@ -33,6 +33,10 @@ def plan(tier, seed):
     for feat in FOCUS:
         fam = 'probe:' + feat if feat in opened else 'main'
         cases += [{'family': fam, 'cseed': rnd.randrange(1 << 30), 'want': feat} for _ in range(k)]
+    # models that mix discrete-delay edges and gamma-kernel edges
+    cases += [{'family': 'mixed_kinds', 'cseed': rnd.randrange(1 << 30)} for _ in range(40 if tier == 'quick' else 1000)]
+    fam = 'probe:bundle_mixes_discrete_and_gamma' if 'bundle_mixes_discrete_and_gamma' in opened else 'mixed_kinds'
+    cases += [{'family': fam, 'cseed': rnd.randrange(1 << 30), 'want': 'bundle_mixes_discrete_and_gamma'} for _ in range(k)]
     return cases
 
 
@@ -59,7 +63,14 @@ def make_case(case, ctx):
                 continue
             pfrac = rnd.choice([0.3, 0.6, 1.0])
             nd = 0
+            mixed = case.get('family') == 'mixed_kinds' or want == 'bundle_mixes_discrete_and_gamma'
             for e in edges:
+                if mixed and rnd.random() < 0.45:
+                    # a discrete delay (no spread) next to gamma-kernel edges
+                    if rnd.random() < pfrac:
+                        e[3]['delay'] = round(rnd.randint(2, 9) * dt, 7)
+                        nd += 1
+                    continue
                 if rnd.random() < pfrac:
                     n = rnd.choice([1, 1, 2, 2, 3, 4, 6])
                     # keep the chain rate n/d below 1/dt: explicit Euler on a stiffer chain is unstable and the
@@ -76,9 +87,11 @@ def make_case(case, ctx):
                 nd += 1
             if nd == 0:
                 continue
-            solver = rnd.choice(['euler', 'euler', 'euler', 'scipy'])
+            solver = rnd.choice(['euler', 'euler', 'euler', 'scipy']) if not mixed else 'euler'
             vec = rnd.random() < 0.5
-            r2 = c09.delay_risks(spec, solver) | c04.vec_risks(spec)
+            r2 = c09.delay_risks(spec, solver) | c04.vec_risks(spec) | mixed_risks(spec)
+            if mixed and not any(e[3].get('delay') and not e[3].get('spread') for e in edges):
+                continue
             f, r = gen.features(spec)
             r2 |= set(r) - {'vec_partial_input_default'}
             if want and want not in r2:
@@ -89,8 +102,22 @@ def make_case(case, ctx):
         else:
             raise RuntimeError('generator could not satisfy the constraints')
     f, r = gen.features(spec)
-    r = sorted((set(r) - {'vec_partial_input_default'}) | c09.delay_risks(spec, solver) | c04.vec_risks(spec))
+    r = sorted((set(r) - {'vec_partial_input_default'}) | c09.delay_risks(spec, solver) | c04.vec_risks(spec) | mixed_risks(spec))
     return spec, f, r, solver, vec
+
+
+def mixed_risks(spec):
+    """a vectorized edge bundle (merged source variable -> merged target variable) that contains discrete-delay edges and
+    gamma-kernel edges"""
+    _, edge_list, group, node_group = c04.groups_of(spec)
+    kinds = {}
+    for s_, t_, et, a in edge_list:
+        if not a.get('delay'):
+            continue
+        sn, so, sv = s_.rsplit('/', 2)
+        tn, to, tv = t_.rsplit('/', 2)
+        kinds.setdefault((node_group[sn], so, sv), set()).add('gamma' if a.get('spread') else 'discrete')
+    return {'bundle_mixes_discrete_and_gamma'} if any(len(v) > 1 for v in kinds.values()) else set()
 
 
 def run_case(case, ctx):
@@ -163,7 +190,7 @@ def run_case(case, ctx):
 # MANIFEST-BEGIN
 MANIFEST = {
     'technique': 'reference monitor: trajectories vs the explicitly written linear-chain ODE + hook on _add_edge_buffer reading the emitted chain orders and rates',
-    'level_text': 'Generated circuits with random (delay, spread) edges are simulated (Euler, scipy) and every user state variable is compared with the reference that integrates the explicit chain of n=round((d/s)^2) first-order stages of rate n/d per edge (1e-7 Euler, 2e-6 adaptive); a hook on the emitting function asserts per edge that order and rate are as defined and that the mean delay order/rate equals d; vectorized and non-vectorized forms both run. Held on observed circuits only.',
+    'level_text': 'Generated circuits with random (delay, spread) edges are simulated (Euler, scipy) and every user state variable is compared with the reference that integrates the explicit chain of n=round((d/s)^2) first-order stages of rate n/d per edge (1e-7 Euler, 2e-6 adaptive); a hook on the emitting function asserts per edge that order and rate are as defined and that the mean delay order/rate equals d; vectorized and non-vectorized forms both run. A mixed family combines discrete-delay edges and gamma-kernel edges in one model. Held on observed circuits only.',
     'level_note': 'Trusted: vp/ref.py chain model. Connectivity(delays, spread) form is covered under C16. Structural risk features shared with C09 are excluded from the main sweep (open findings).',
 }
 # MANIFEST-END
